@@ -1045,11 +1045,11 @@ def build_struct(target_host: str, banner: Optional['Banner'], kex: Optional['SS
 
             # If a list for the failure notes exists, add it to the return value.  Similarly, add the related lists for the warnings and informational notes.
             if (alg_desc_len >= 2) and (len(alg_desc[1]) > 0):
-                alg_info["fail"] = alg_desc[1]
+                alg_info["fail"] = list(alg_desc[1])
             if (alg_desc_len >= 3) and (len(alg_desc[2]) > 0):
-                alg_info["warn"] = alg_desc[2]
+                alg_info["warn"] = list(alg_desc[2])
             if (alg_desc_len >= 4) and (len(alg_desc[3]) > 0):
-                alg_info["info"] = alg_desc[3]
+                alg_info["info"] = list(alg_desc[3])  # A copy: the "available since" text added below must not end up in the database entry itself (an algorithm listed twice would show it twice).
 
             # Add information about when this algorithm was implemented in OpenSSH/Dropbear.
             since_text = Algorithm.get_since_text(alg_desc[0])
